@@ -194,6 +194,7 @@ def run(ctx, rep):
 
     from rules import errprop, flush
     errprop.run(ctx, rep, "R-ERRPROP")
+    errprop.run_iter(ctx, rep, "R-ERRITER")
     flush.run(ctx, rep, "R-FLUSH")
 
 
